@@ -104,10 +104,10 @@ type node struct {
 
 // Trie is the result of Build.
 type Trie struct {
-	Root  []byte            // 32-byte root hash
-	Nodes map[string][]byte // nibble path (one byte per nibble) -> encoded node, for the root and all hashed (>=32 byte) nodes
-	Sorted []KV             // entries sorted by key
-	root  *node
+	Root   []byte            // 32-byte root hash
+	Nodes  map[string][]byte // nibble path (one byte per nibble) -> encoded node, for the root and all hashed (>=32 byte) nodes
+	Sorted []KV              // entries sorted by key
+	root   *node
 }
 
 // Build constructs the trie of the given map (empty values are treated as absent).
